@@ -17,10 +17,43 @@ warnings.filterwarnings("ignore")
 PROPERTY = "C19"
 LEAN_MODULES = ["AioProps.C19"]
 THEOREMS = [
+    "Aio.C19.window_finds_boundary_across_edges",
+    "Aio.C19.window_no_false_boundary",
+    "Aio.C19.first_delimiter_follows_content",
+    "Aio.C19.roundtrip_any_chunking",
+    "Aio.C19.b64_align_conserves",
+    "Aio.C19.b64_align_quartets",
+    "Aio.C19.b64_short_chunk_not_aligned",
+    "Aio.C19.size_truthful",
+    "Aio.C19.size_declared_iff_plain",
+    "Aio.C19.gather_terminates",
+    "Aio.C19.gather_fuel_enough",
+    "Aio.C19.gather_eof_counter",
 ]
-RULE = ("see generators in harness/c19.py")
-TRUSTED_BASE = []
-ASSUMPTIONS = []
+RULE = ("(a) round trips: real MultipartWriter (subtypes mixed/related/form-data, boundaries of 1..70 chars from a punctuation-rich "
+        "alphabet, 0-4 parts, nesting depth <= 2, part sizes around 0, the boundary window, 8192 and 16384, content alphabets of CR/LF runs, "
+        "dashes, boundary prefixes, delimiter-minus-one-byte placed at read-chunk edges, random binary; Content-Encoding gzip/deflate/identity, "
+        "Content-Transfer-Encoding base64/quoted-printable/binary in mixed case; Content-Disposition names/filenames with non-ASCII, quotes, "
+        "separators; length-framed parts whose content contains the delimiter) -> bytes -> segmenter (whole / fixed k incl. 1 / random cuts / "
+        "cuts around every CRLF-- / tiny; segments delivered lazily, one each time the reader parks; EOF with the last segment or later; a prefix "
+        "pre-fed) -> real StreamReader + MultipartReader driven by a script of read / read_chunk(sizes cycling, >= boundary+2) / readline / "
+        "release / skip / partial-read-then-release, descending into nested readers or leaving them to the parent; (b) the same bodies with 1-3 "
+        "mutations (truncate, delete, insert structural junk, replace a byte, duplicate a region; ASCII only) under small and default limits "
+        "(max_field_size, max_headers, client_max_size, stream limit). Every case is compared event by event (headers, every chunk/line handed "
+        "out, error class) with the Lean model, and judged by the direct oracle. Distinct by boundary+parts+cuts+script.")
+TRUSTED_BASE = [
+    "zlib and binascii.b2a_qp are not modelled: the compressor outputs and quoted-printable encodings are oracle columns of the writer model",
+    "StreamReader is modelled only through read(n>0)/readline/unread_data/at_eof with lazy one-segment-per-wait delivery; timers, flow control and exceptions set on the stream are not modelled",
+    "header values are modelled as bytes; exact for ASCII header blocks (parse_mimetype's unicode strip/lower on non-ASCII Content-Type is not modelled; the mutation stream is ASCII)",
+    "roundtrip_any_chunking is about the read_chunk loop abstracted from the stream (absRead: any sequence of fresh-chunk sizes); that _read_chunk_from_stream realises such a sequence is covered by correspondence and by gather_terminates, not by a refinement theorem",
+    "MultipartReader.next/_read_boundary/_read_headers/nesting, readline, Content-Length mode, parse_content_disposition, FormData and BaseRequest.post are covered by correspondence / direct oracle only",
+    "the form field `_charset_` special case of MultipartReader.next is not modelled (never generated)",
+]
+ASSUMPTIONS = [
+    "content precondition of the round trip: the delimiter CRLF--boundary does not occur in CRLF + encoded part body (unless the part is length-framed); boundary without CR/LF (the writer refuses others)",
+    "quoted-printable is used for line-oriented text only and never over compressed bytes",
+    "transport segments are non-empty (feed_data(b'') is a no-op)",
+]
 
 HERE = os.path.dirname(os.path.abspath(__file__))
 
